@@ -13,7 +13,7 @@
     Segment boundaries are the dates at which the engine stops for any reason (other actions' events, timers, profile
     events), so a history also fixes the sequence of engine steps seen by the FULL algorithm.
     [eps] is the precision of double_update (sg_precision_workamount * sg_precision_timing); theorems are at eps = 0. *)
-From Coq Require Import QArith Qminmax List Bool ZArith.
+From Coq Require Import QArith Qminmax Qabs List Bool ZArith.
 Import ListNotations.
 Local Open Scope Q_scope.
 
